@@ -280,9 +280,9 @@ Proof.
       kconst; rewrite ?Nat.eqb_refl; try reflexivity; destruct (fast (cg c)); cbn; rewrite ?orb_true_r; reflexivity.
     + apply Hsame. cbn. intros E. apply Nat.eqb_eq in E. congruence.
   - (* OReg3 *) eapply at_idx_cases; [exact Ht| |]; intros Hi ->.
-    + subst. split; [exact HI|].
+    + subst. split; [unfold Inv, reg3_clear; cbn [window ovf]; kconst; split; [lia|exact Ho]|].
       open_clauses; cbn [window cg fast reg3_clear cong0 is_teardown_of is_nak_op is_ack_or_recovery_op is_flag_reset_of];
-      rewrite ?Nat.eqb_refl; try reflexivity; try lia; destruct (fast (cg c)); cbn; rewrite ?orb_true_r; reflexivity.
+      kconst; rewrite ?Nat.eqb_refl; try reflexivity; try lia; destruct (fast (cg c)); cbn; rewrite ?orb_true_r; reflexivity.
     + apply Hsame. cbn. discriminate.
   - (* OSetConn *) eapply at_idx_cases; [exact Ht| |]; intros Hi ->.
     + split; [exact HI|]. apply same_ok; auto. cbn. discriminate.
